@@ -12,10 +12,10 @@ from vf import pgconc_paging as P
 META = {
     'technique': 'Coq proof (structural induction on the page script + request-prefix invariant over arbitrary call sequences) '
                  'on a hand-written ResultSet/ResponseFuture paging model + step-by-step correspondence with the real classes',
-    'level_text': 'C18_iter / C18_iter_across_failures / C18_states / C18_states_kth / C18_stops (any access pattern) / C18_stops_iter / C18_list_eq_iter / '
-                  'C18_getitem / C18_eq / C18_manual_eq_iter proved for every page script (unbounded pages, empty pages anywhere, failing page requests anywhere); '
+    'level_text': 'C18_iter / C18_iter_across_failures / C18_states / C18_states_kth / C18_stops (any access pattern) / C18_stops_iter / C18_list_eq_iter / C18_cont_iter / C18_cont_steps / C18_cont_no_requests / '
+                  'C18_getitem / C18_eq / C18_manual_eq_iter proved for every page script (unbounded pages, empty pages anywhere, failing page requests and speculative executions of a page fetch anywhere; continuous paging sessions); '
                   'model tied to cassandra/cluster.py by differential execution after every ResultSet call.',
-    'level_note': 'Trusted: Coq kernel, the harness fakes (session/pool/connection/event). Not modelled: continuous paging (DSE), '
+    'level_note': 'Trusted: Coq kernel, the harness fakes (session/pool/connection/event). Not modelled: errors/cancel inside a continuous paging session, '
                   'page-fetch errors other than one delivered to the caller and followed by a repeat of the call, zero-length paging states, Python recursion limit (~990 consecutive empty pages), '
                   'concurrent use of one ResultSet from several threads.',
     'design_ref': 'DESIGN.md section 4, C18',
@@ -28,8 +28,8 @@ def mk_pages(sizes):
     """sizes: ints (a page with that many rows) or 'F' (the page request arriving at that point fails)"""
     pages, n = [], 1
     for s in sizes:
-        if s == P.FAIL:
-            pages.append(P.FAIL)
+        if s in P.MARKS:
+            pages.append(s)
             continue
         pages.append(list(range(n, n + s)))
         n += s
@@ -40,7 +40,7 @@ def patterns(pages, rng, nrandom):
     """access patterns for one script: (name, ops)"""
     script = pages
     pages = P.script_pages(script)
-    nf = len(script) - len(pages)
+    nf = sum(1 for x in script if x == P.FAIL)
     allr = [r for p in pages for r in p]
     n = len(allr)
     np_ = len(pages)
@@ -75,24 +75,64 @@ def patterns(pages, rng, nrandom):
     return out
 
 
-def oracle(ctx, name, pages, ops, eager, res):
+CONT_OPS = [('iter',), ('next',), ('next',), ('next',), ('one',), ('hasmore',), ('pstate',), ('list',)]
+
+
+def patterns_cont(pages, rng, nrandom):
+    """access patterns for a continuous-paging result (one generator over all pushed pages)"""
+    allr = [r for p in P.script_pages(pages) for r in p]
+    n = len(allr)
+    out = [('iterate-steps', [('iter',)] + [('next',)] * (n + 2)),
+           ('list', [('list',), ('list',), ('hasmore',)]),
+           ('getitem', [('getitem', rng.choice([0, -1, n - 1, n, -n - 1, n // 2])), ('getitem', 0), ('list',), ('iter',)]),
+           ('eq', [('eq', allr), ('eq', allr[:-1] if allr else [7]), ('current',)]),
+           ('eq-wrong-first', [('eq', allr + [99]), ('eq', allr)]),
+           ('partial-then-list', [('iter',)] + [('next',)] * rng.randint(0, n) + [('list',), ('getitem', 0), ('iter',), ('next',)])]
+    for _ in range(nrandom):
+        ops = [('iter',)] if rng.random() < 0.7 else []
+        for _ in range(rng.randint(1, 10)):
+            c = rng.random()
+            if c < 0.1:
+                ops.append(('getitem', rng.randint(-n - 1, n + 1)))
+            elif c < 0.17:
+                ops.append(('eq', allr if rng.random() < 0.6 else allr[1:]))
+            else:
+                ops.append(rng.choice(CONT_OPS))
+        # list mode is an ordinary paged state again; keep to the calls modelled for a continuous result
+        out.append(('mixed', ops))
+    return out
+
+
+def oracle(ctx, name, pages, ops, eager, res, mode=None):
     """The statement, evaluated on what the implementation did.  Returns True if a violation was reported."""
     script = pages
     pages = P.script_pages(script)
-    nf = len(script) - len(pages)
+    nf = sum(1 for x in script if x == P.FAIL)
+    mode = mode or {}
     lead = 0
     while script[lead] == P.FAIL:
         lead += 1                          # failures of the very first request: execute() itself is called again
     allr = [r for p in pages for r in p]
     n = len(allr)
     expect_states = P.expected_requests(script)
-    case = {'pages': script, 'ops': [list(o) for o in ops], 'eager': eager, 'pattern': name}
+    if mode.get('cont'):
+        expect_states = [None] * (1 + lead)     # continuous paging: the server pushes the pages, nothing more is requested
+    case = {'pages': script, 'ops': [list(o) for o in ops], 'eager': eager, 'pattern': name, 'mode': mode}
     pages = script                          # for messages
     sent = res['sent']
     tr = res['trace']
     # any access pattern: states in order, nothing after the page without paging state
+    if mode.get('cont') and len(sent) > len(expect_states):
+        ctx.violation('continuous.page-requested', 'pages=%r ops=%s (continuous paging, protocol %s): %d requests, the session needs one (carried states %r)' % (
+            pages, name, mode.get('pv'), len(sent), sent), case=case, expected=expect_states, actual=sent, theorem='C18_cont_no_requests', kind='history')
+        return True
+    if -1 in sent:
+        ctx.violation('request.paging-state-unreadable-in-encoded-request',
+                      'pages=%r ops=%s mode=%r: a page request does not carry the paging state where the server reads it (states read back from '
+                      'the encoded bodies: %r)' % (pages, name, mode, sent), case=case, expected=expect_states, actual=sent, theorem='C18_states', kind='history')
+        return True
     if res['bogus'] or len(sent) > len(expect_states):
-        ctx.violation('request.after-last-page', 'pages=%r ops=%s: %d requests for %d pages + %d failed requests (carried states %r)' % (pages, name, len(sent), len(pages) - nf, nf, sent),
+        ctx.violation('request.after-last-page', 'pages=%r ops=%s: %d requests for %d pages + %d failed requests (carried states %r)' % (pages, name, len(sent), len(P.script_pages(script)), nf, sent),
                       case=case, expected=expect_states, actual=sent, theorem='C18_stops', kind='history')
         return True
     if sent != expect_states[:len(sent)]:
@@ -150,7 +190,8 @@ def oracle(ctx, name, pages, ops, eager, res):
             return bad('manual.ne.iter', 'manual fetch_next_page loop disagrees with iteration', allr, rows, 'C18_manual_eq_iter')
         # has_more_pages must turn False exactly after the last page
         hm = [r[1][1] for op, r in zip(ops, tr) if op[0] == 'hasmore']
-        exp = [k < len(pages) - 1 for k in range(len(pages))] + [False]
+        npg = len(P.script_pages(script))
+        exp = [k < npg - 1 for k in range(npg)] + [False]
         if nf == 0 and hm != exp:
             return bad('manual.has_more', 'has_more_pages sequence wrong', exp, hm, 'C18_manual_eq_iter')
     return False
@@ -172,17 +213,27 @@ def scripts(ctx):
     for _ in range(90 if quick else 1500):
         np_ = ctx.rng.randint(4 if quick else 6, 8)
         out.append(tuple(ctx.rng.choice((0, 0, 1, 2, 3)) for _ in range(np_)))
+    # a speculative execution firing inside the page fetch, at every position (after the first page) of every small script
+    for sizes in base:
+        if 2 <= len(sizes) <= (3 if quick else 4):
+            for pos in range(1, len(sizes)):
+                out.append(sizes[:pos] + (P.SPEC,) + sizes[pos:])
     for _ in range(90 if quick else 1500):
         np_ = ctx.rng.randint(2, 7)
         sc = []
-        for _ in range(np_):
+        for k in range(np_):
             while ctx.rng.random() < 0.3 and len(sc) < 12:
                 sc.append(P.FAIL)
+            if k > 0 and ctx.rng.random() < 0.3:
+                sc.append(P.SPEC)
+                if ctx.rng.random() < 0.3:
+                    sc.append(P.SPEC)
             sc.append(ctx.rng.choice((0, 0, 1, 2, 3)))
         out.append(tuple(sc))
     # boundary: all empty, long runs of empty pages, one big page
     out += [(0,) * 8, (0, 0, 0, 0, 0, 0, 0, 1), (3, 0, 0, 0, 0, 0, 0, 0), (1, 0, 1, 0, 1, 0, 1, 0), (12,), (5, 5),
-            (1, P.FAIL, P.FAIL, P.FAIL, 1), (P.FAIL, P.FAIL, 2, 0, P.FAIL, 0, P.FAIL, 1), (2, P.FAIL, 0)]
+            (1, P.FAIL, P.FAIL, P.FAIL, 1), (P.FAIL, P.FAIL, 2, 0, P.FAIL, 0, P.FAIL, 1), (2, P.FAIL, 0),
+            (1, P.SPEC, P.SPEC, 0, P.SPEC, 2), (0, P.SPEC, 0, P.SPEC, 1), (1, P.FAIL, P.SPEC, 1)]
     return out, maxp
 
 
@@ -198,11 +249,11 @@ def run(ctx):
         for fn in sorted(os.listdir(cdir)):
             with open(os.path.join(cdir, fn)) as f:
                 c = json.load(f)
-            corpus.append((c.get('pattern', 'mixed'), c['pages'], [tuple(o) for o in c['ops']], c.get('eager', False)))
+            corpus.append((c.get('pattern', 'mixed'), c['pages'], [tuple(o) for o in c['ops']], c.get('eager', False), c.get('mode')))
     ss, maxp = scripts(ctx)
     ctx.exhaustive = True
     ctx.rule = ('every page-size sequence over {0,1,2} with <= %d pages (exhaustive) + random sequences of up to 8 pages over {0..3} + boundary '
-                'scripts, scripts with page requests that fail with a rethrown read timeout at every position / at random, each x 9 named access patterns (step iteration, list(), [i], ==, manual fetch loop, partial-then-list, '
+                'scripts, scripts with page requests that fail with a rethrown read timeout at every position / at random, scripts with a speculative execution firing inside a page fetch at every position / at random, half of the statements with a serial consistency level (requests observed in the encoded body), continuous paging results on DSE_V1/DSE_V2 for every script with <= 3 pages, each x 9 named access patterns (step iteration, list(), [i], ==, manual fetch loop, partial-then-list, '
                 'fetch while iterating, one/bool) + random mixed call sequences, each with the response delivered before / while the caller '
                 'waits; non-trivial = distinct (script, ops) with >= 2 pages' % maxp)
     cases, meta = [], []
@@ -211,9 +262,27 @@ def run(ctx):
     for sizes in ss:
         pages = mk_pages(sizes)
         for name, ops in patterns(pages, ctx.rng, nrandom):
-            todo.append((name, pages, ops, ctx.rng.random() < 0.5))
-    for name, pages, ops, eager in todo:
-        res = P.run_case(pages, ops, eager)
+            # half of the statements carry a serial consistency level (the paging state must still be where the server reads it)
+            mode = {'serial': True} if ctx.rng.random() < 0.5 else {}
+            if P.SPEC in pages:
+                twice = any(a == P.SPEC and b == P.SPEC for a, b in zip(pages, pages[1:]))
+                if twice or ctx.rng.random() < 0.5:
+                    mode['late'] = True      # the losing answers arrive after the next page fetch has started
+            todo.append((name, pages, ops, ctx.rng.random() < 0.5, mode or None))
+    # continuous paging (DSE_V1: no back-pressure state; DSE_V2: with it)
+    for np_ in range(1, (3 if ctx.tier == 'quick' else 4) + 1):
+        for sizes in itertools.product((0, 1, 2), repeat=np_):
+            for pv in (65, 66):
+                pages = mk_pages(sizes)
+                for name, ops in patterns_cont(pages, ctx.rng, 2 if ctx.tier == 'quick' else 4):
+                    todo.append((name, pages, ops, ctx.rng.random() < 0.5, {'cont': True, 'pv': pv}))
+    for name, pages, ops, eager, mode in todo:
+        res = P.run_case(pages, ops, eager, mode=mode)
+        cont = bool(mode and mode.get('cont'))
+        ctx.count('mode', 'continuous pv=%d' % mode['pv'] if cont else ('serial' if mode and mode.get('serial') else 'plain'))
+        ctx.count('speculative_firings', sum(1 for p in pages if p == P.SPEC))
+        if mode and mode.get('late'):
+            ctx.count('mode', 'late answers of speculative executions')
         ctx.case([pages, [list(o) for o in ops], eager], nontrivial=len(P.script_pages(pages)) >= 2,
                  sample={'pages': pages, 'ops': [o[0] for o in ops], 'sent_paging_states': res['sent'],
                          'returns': [r[1] for r in res['trace']][:8]})
@@ -225,21 +294,23 @@ def run(ctx):
         for r in res['trace']:
             if r[1][0] == 'exc':
                 ctx.count('exceptions', r[1][1])
-        oracle(ctx, name, pages, ops, eager, res)
-        cases.append(P.g_case(pages, ops, res))
-        meta.append((name, pages, ops, eager, res))
+        oracle(ctx, name, pages, ops, eager, res, mode)
+        cases.append(P.g_case(pages, ops, res, cont))
+        meta.append((name, pages, ops, eager, res, mode))
     try:
         bad = ctx.coq_filter(['Paging'], '(fun b : bool => b)', cases, shard=250)
         for i in bad[:10]:
-            name, pages, ops, eager, res = meta[i]
+            name, pages, ops, eager, res, mode = meta[i]
             model = None
             try:
+                if mode and mode.get('cont'):
+                    raise RuntimeError('continuous')
                 model = ctx.coq_eval(['Paging'], ['let \'(s0, o0) := init %s in (o0, obs s0, run s0 [%s])' % (
                     P.g_server(pages), '; '.join(P.g_op(o) for o in ops))])[0]
             except RuntimeError:
                 pass
             ctx.disagreement('model-vs-impl.' + name, 'ResultSet differs from Model/Paging.v at pages=%r ops=%r' % (pages, ops),
-                             case={'pages': pages, 'ops': [list(o) for o in ops], 'eager': eager, 'pattern': name},
+                             case={'pages': pages, 'ops': [list(o) for o in ops], 'eager': eager, 'pattern': name, 'mode': mode},
                              actual={'init': res['init'], 'trace': res['trace']}, model=model)
     except RuntimeError as e:
         ctx.proof_broken.append(('correspondence:Paging', str(e)[-600:]))
@@ -260,11 +331,11 @@ def replay(ctx, rp):
         print('nothing to replay: %s' % rp.get('theorem'))
         return 1
     pages, ops, eager = case['pages'], [tuple(o) for o in case['ops']], case.get('eager', False)
-    res = P.run_case(pages, ops, eager)
-    print('replay pages=%r ops=%r' % (pages, ops))
+    res = P.run_case(pages, ops, eager, mode=case.get('mode'))
+    print('replay pages=%r ops=%r mode=%r' % (pages, ops, case.get('mode')))
     print('  carried paging states: %r' % (res['sent'],))
     for op, r in zip(ops, res['trace']):
         print('  %-10s sent=%r -> %r   state=%r' % (op[0], r[0], r[1], r[2]))
-    bad = oracle(ctx, case.get('pattern', 'mixed'), pages, ops, eager, res)
+    bad = oracle(ctx, case.get('pattern', 'mixed'), pages, ops, eager, res, case.get('mode'))
     print(('VIOLATION property=C18 replay=%s' % ctx.replay_path) if bad else 'not reproduced')
     return 1 if bad else 0
